@@ -277,8 +277,8 @@ func intrinsic(fr *frame, fn *ssa.Function, args []value) (value, bool) {
 			}
 		}
 		e.docs = append(e.docs, d)
-		if rp, isPtr := pt.Elem().Underlying().(*types.Pointer); isPtr && d.format == "toml" {
-			// TOML has no null: decoding into a nil pointer always allocates the value
+		if rp, isPtr := pt.Elem().Underlying().(*types.Pointer); isPtr && (d.format == "toml" || d.format == "xml") {
+			// TOML and XML have no null: decoding into a nil pointer always allocates the value
 			inner := new(value)
 			*inner = arbitrary(rp.Elem(), d.name+"*", d, 0)
 			*cell = inner
